@@ -424,6 +424,10 @@ def concat (r : Rep) (b : Bytes) : Option Rep :=
     (rd r.buf 0 r.len).bind fun src => (wr s.buf 0 src).bind fun buf =>
       (wr buf r.len b).bind fun buf => (wr buf (r.len + b.length) [0]).map fun buf => { s with buf := buf }
 
+/-- `operator+(const char* a, const String& b)`: `String s(a); s += b; return s;` -/
+def rconcat (a : Bytes) (r : Rep) : Option Rep :=
+  (ofCStr a).bind fun s => s.append (.ext r.toList)
+
 /-- `substring(i, j)`: `String s(j-i, j-i); memcpy(s.str(), str()+i, j-i); s.str()[j-i] = 0;`
     (`i > j` would be a negative size: `none`) -/
 def substring (r : Rep) (i j : Nat) : Option Rep :=
